@@ -12,6 +12,7 @@ def fault_variants(pid, base_cases, model_ok, rnd, per_history, select, tags):
               "desc": "the fault-free runs of the same histories, primitive traces compared with the model (L2)", "exhaustive": False}
     trig = {}
     variants = []
+    kinds = {}
     for c in base_cases:
         a = impl[c.id]
         if mod is not None:
@@ -33,10 +34,24 @@ def fault_variants(pid, base_cases, model_ok, rnd, per_history, select, tags):
                 if f[0] in tags and select(c, i, c.ops[i]):
                     sites.append((f[0], f[1], dec(f[2]), occ, i))
         if len(sites) > per_history:
-            sites = rnd.sample(sites, per_history)
+            # stratified: prefer the (filesystem, method) kinds least covered so far over the
+            # whole stream, so that rare calls (Close, Write, Chtimes ...) are not crowded out
+            rnd.shuffle(sites)
+            chosen = []
+            pool = list(sites)
+            while len(chosen) < per_history and pool:
+                pool.sort(key=lambda s: kinds.get((s[0], s[1]), 0))
+                s0 = pool.pop(0)
+                kinds[(s0[0], s0[1])] = kinds.get((s0[0], s0[1]), 0) + 1
+                chosen.append(s0)
+            sites = chosen
+        else:
+            for s0 in sites:
+                kinds[(s0[0], s0[1])] = kinds.get((s0[0], s0[1]), 0) + 1
         for k, s in enumerate(sites):
             v = t2.Case("%s!%d" % (c.id, k), c.cfg, c.inits, c.ops, faults=[s[:4]], meta={"parent": c.id, "fault_op": s[4], "twin": not aligned})
             variants.append(v)
+    stream["distribution"] = {"fault_sites_by_kind": {"%s %s" % k: v for k, v in sorted(kinds.items())}}
     return {"stream": stream, "triggers": trig}, variants
 
 
